@@ -5,6 +5,7 @@ import (
 	"go/constant"
 	"go/token"
 	"go/types"
+	"strings"
 
 	"golang.org/x/tools/go/ssa"
 )
@@ -64,16 +65,19 @@ func (c *Ctx) assumeID(assumeNil bool) func(from *ssa.BasicBlock, k int) bool {
 
 // searchFromBlock with an edge filter.
 func reachFromBlockF(b *ssa.BasicBlock, target, avoid ipred, edgeOK func(*ssa.BasicBlock, int) bool) ssa.Instruction {
-	s := &searcher{avoid: avoid, target: target, edgeOK: edgeOK, seen: map[*ssa.BasicBlock]bool{b: true}}
-	if s.scan(b, 0) {
+	s := newIPSearch(target, avoid)
+	s.edgeOK = edgeOK
+	s.seen[fmt.Sprintf("%p|", b)] = true
+	if s.scan(b, 0, nil) {
 		return s.found
 	}
 	return nil
 }
 
 func reachFromF(from ssa.Instruction, target, avoid ipred, edgeOK func(*ssa.BasicBlock, int) bool) ssa.Instruction {
-	s := &searcher{avoid: avoid, target: target, edgeOK: edgeOK, seen: map[*ssa.BasicBlock]bool{}}
-	if s.scan(from.Block(), instrIndex(from)+1) {
+	s := newIPSearch(target, avoid)
+	s.edgeOK = edgeOK
+	if s.scan(from.Block(), instrIndex(from)+1, nil) {
 		return s.found
 	}
 	return nil
@@ -160,6 +164,107 @@ func (c *Ctx) respLiteralErrCode(v ssa.Value) (int64, bool) {
 	return 0, false
 }
 
+// ---- events: instructions that *are* the thing a rule talks about, wherever they live
+
+// flagEvents: lifted writes of the connection-unusable flag, split into certainly-non-nil sets and clears.
+func (c *Ctx) flagEvents() (sets, clears map[ssa.Instruction]bool) {
+	sets, clears = map[ssa.Instruction]bool{}, map[ssa.Instruction]bool{}
+	for _, sv := range c.liftedFieldWrites(c.R.FFlag) {
+		if isFreshAlloc(fieldBase(sv.Store)) {
+			continue
+		}
+		switch {
+		case isNilConst(sv.Val):
+			clears[sv.At] = true
+		case c.nonNilAt(sv.Val, sv.At, 0):
+			sets[sv.At] = true
+		}
+	}
+	return
+}
+
+func fieldBase(st *ssa.Store) ssa.Value {
+	if fa, ok := st.Addr.(*ssa.FieldAddr); ok {
+		return fa.X
+	}
+	return nil
+}
+
+func (c *Ctx) isSwap(in ssa.Instruction) bool {
+	st, ok := in.(*ssa.Store)
+	if !ok {
+		return false
+	}
+	fa, ok := st.Addr.(*ssa.FieldAddr)
+	return ok && fieldOfAddr(fa) == c.R.FSock && !isFreshAlloc(fa.X)
+}
+
+func (c *Ctx) isRangeOver(in ssa.Instruction, f *types.Var) bool {
+	rg, ok := in.(*ssa.Range)
+	return ok && c.fieldVal(rg.X, f)
+}
+
+func (c *Ctx) isRegisterInflight(in ssa.Instruction) bool {
+	mu, ok := in.(*ssa.MapUpdate)
+	return ok && c.fieldVal(mu.Map, c.R.FInflight)
+}
+
+// isCompletion: a completion (client response) is delivered to some call's mailbox.
+func (c *Ctx) isCompletion(in ssa.Instruction) bool {
+	isResp := func(v ssa.Value) bool {
+		ch, ok := v.Type().Underlying().(*types.Chan)
+		return ok && ch.Elem() == types.Type(c.R.TCresp)
+	}
+	switch x := in.(type) {
+	case *ssa.Send:
+		return isResp(x.Chan)
+	case *ssa.Select:
+		for _, st := range x.States {
+			if st.Dir == types.SendOnly && isResp(st.Chan) {
+				return true
+			}
+		}
+	}
+	return false
+}
+
+// isRequestWrite: the socket write that puts a request on the wire.
+func (c *Ctx) isRequestWrite(in ssa.Instruction) bool {
+	w := c.ws()
+	ci, ok := in.(ssa.CallInstruction)
+	if !ok || w.SendReq == nil || in.Parent() != w.SendReq {
+		return false
+	}
+	return strings.HasPrefix(calleeName(ci), "(*"+gorilla+".Conn).") && gorillaWriteSide[methodOf(ci)]
+}
+
+// redialSpawns: go statements starting a goroutine that (transitively) installs a new socket.
+func (c *Ctx) redialSpawns() []*ssa.Go {
+	var out []*ssa.Go
+	for _, fn := range c.P.Funcs {
+		allInstrsRaw(fn, func(in ssa.Instruction) {
+			g, ok := in.(*ssa.Go)
+			if !ok {
+				return
+			}
+			tgt := c.P.unbound(staticCallee(g))
+			if tgt == nil || !c.P.allFns[tgt] {
+				return
+			}
+			has := false
+			c.P.coneInstrs(tgt, func(x ssa.Instruction) {
+				if c.isSwap(x) {
+					has = true
+				}
+			})
+			if has {
+				out = append(out, g)
+			}
+		})
+	}
+	return out
+}
+
 func runC03(c *Ctx) {
 	p, r := c.P, c.R
 	w := c.ws()
@@ -178,52 +283,7 @@ func runC03(c *Ctx) {
 	temp, haveTemp := c.tempCode()
 
 	// ---- R03.1
-	{
-		storeNonNilFlag := func(fn *ssa.Function) ipred {
-			return func(in ssa.Instruction) bool {
-				st, ok := in.(*ssa.Store)
-				if !ok {
-					return false
-				}
-				fa, ok := st.Addr.(*ssa.FieldAddr)
-				if !ok || fieldOfAddr(fa) != r.FFlag {
-					return false
-				}
-				return !isNilConst(st.Val) && c.isNonNilErrorValue(st.Val, st)
-			}
-		}
-		nsig := 0
-		var sigs []FieldUse
-		sigs = append(sigs, usesOfKind(p.uses(r.FIncoming), "close")...)
-		sigs = append(sigs, usesOfKind(p.uses(r.FReadErr), "send", "select-send")...)
-		for _, u := range sigs {
-			nsig++
-			construct := fmt.Sprintf("%s: %s on loss-signal channel %s", fname(u.Fn), u.Kind, u.Field.Name())
-			okk := mustPrecede(u.Fn, storeNonNilFlag(u.Fn), u.At)
-			c.check(okk, "R03.1", construct, c.ipos(u.At), "preceded on all paths by a non-nil store to the connection-unusable flag",
-				"connection loss is signalled on a path that has not marked the connection unusable: requests accepted until the reconnect completes are written to the dead socket and never answered")
-		}
-		if nsig == 0 {
-			c.und("R03.1", "loss signals", "-", "no close of the incoming channel / send on the read-error channel found")
-		}
-		// clearing the flag
-		for _, u := range usesOfKind(p.uses(r.FFlag), "store") {
-			if !isNilConst(u.Val) || c.isConstruction(u) {
-				continue
-			}
-			construct := fmt.Sprintf("%s: clearing the connection-unusable flag", fname(u.Fn))
-			swap := func(in ssa.Instruction) bool {
-				st, ok := in.(*ssa.Store)
-				if !ok {
-					return false
-				}
-				fa, ok := st.Addr.(*ssa.FieldAddr)
-				return ok && fieldOfAddr(fa) == r.FSock
-			}
-			c.check(mustPrecede(u.Fn, swap, u.At), "R03.1", construct, c.ipos(u.At), "only after the new socket was stored",
-				"the flag is cleared before a new socket is installed: calls issued in the redial window are registered, written to the dead socket and hang")
-		}
-	}
+	c.lossSignalRule("R03.1")
 
 	// ---- R03.2
 	c.exitCleanup("R03.2")
@@ -241,19 +301,9 @@ func runC03(c *Ctx) {
 	if arm, ok := w.Arms["requests"]; ok && arm.Body != nil && c.needWS("R03.6", "sendReq", w.SendReq) {
 		blocks := armBlocks(arm)
 		construct := fmt.Sprintf("%s: request-accept arm", fname(loop))
-		isRegister := func(in ssa.Instruction) bool {
-			mu, ok := in.(*ssa.MapUpdate)
-			return ok && isLoadOf(mu.Map, r.FInflight)
-		}
-		isAnswer := func(in ssa.Instruction) bool {
-			s, ok := in.(*ssa.Send)
-			if !ok {
-				return false
-			}
-			ch, ok := s.Chan.Type().Underlying().(*types.Chan)
-			return ok && ch.Elem() == types.Type(r.TCresp)
-		}
-		leavesArm := func(in ssa.Instruction) bool { return !blocks[in.Block()] || isReturn(in) }
+		isRegister := c.isRegisterInflight
+		isAnswer := c.isCompletion
+		leavesArm := func(in ssa.Instruction) bool { return !inRegion(blocks, in) || isReturn(in) }
 		okAll := true
 		for _, assumeNil := range []bool{true, false} {
 			if wv := reachFromBlockF(arm.Body, leavesArm, func(in ssa.Instruction) bool { return isRegister(in) || isAnswer(in) }, c.assumeID(assumeNil)); wv != nil {
@@ -265,27 +315,20 @@ func runC03(c *Ctx) {
 				c.bad("R03.6", construct, c.ipos(wv), "a path through the arm neither registers nor answers "+kind+": its caller waits for ever")
 			}
 		}
-		// register-before-write for id-bearing requests (also C02)
-		if wv := reachFromBlockF(arm.Body, func(in ssa.Instruction) bool { return isCallTo(in, w.SendReq) }, isRegister, c.assumeID(false)); wv != nil {
-			// reachable sendReq without registering, for a non-nil id — unless that path answered already (flag path does not write)
-			okAll = false
-			c.bad("R03.6", construct, c.ipos(wv), "an id-bearing request can be written before it is registered in the in-flight table: a fast reply is dropped as unknown and the call hangs")
-		}
-		// flag-set path
+		// connection-unusable path
 		flagBranch := c.flagSetBranch(arm)
 		if flagBranch == nil {
 			okAll = false
 			c.bad("R03.6", construct, c.ipos(arm.Body.Instrs[0]), "the arm no longer tests the connection-unusable flag: requests accepted while the link is down are written to the dead socket and never answered")
 		} else {
-			if wv := reachFromBlock(flagBranch, func(in ssa.Instruction) bool { return blocks[in.Block()] && (isRegister(in) || isCallTo(in, w.SendReq)) }, leavesArm); wv != nil {
+			if wv := reachFromBlock(flagBranch, func(in ssa.Instruction) bool { return isRegister(in) || c.isRequestWrite(in) }, leavesArm); wv != nil {
 				okAll = false
 				c.bad("R03.6", construct, c.ipos(wv), "on the connection-unusable path the request is still registered or written")
 			}
-			// answer with temporary code
-			var ans *ssa.Send
+			var ans ssa.Instruction
 			reachFromBlock(flagBranch, func(in ssa.Instruction) bool {
-				if isAnswer(in) && blocks[in.Block()] {
-					ans = in.(*ssa.Send)
+				if isAnswer(in) {
+					ans = in
 					return true
 				}
 				return false
@@ -293,40 +336,55 @@ func runC03(c *Ctx) {
 			if ans == nil {
 				okAll = false
 				c.bad("R03.6", construct, c.ipos(flagBranch.Instrs[0]), "the connection-unusable path does not answer the caller")
-			} else if code, ok := c.respLiteralErrCode(ans.X); !ok || !haveTemp || code != temp {
+			} else if code, ok := c.completionErrCode(ans); !ok || !haveTemp || code != temp {
 				okAll = false
 				c.bad("R03.6", construct, c.ipos(ans), "the immediate failure does not carry the temporary-connection error code")
 			}
 		}
 		if okAll {
-			c.ok("R03.6", construct, c.ipos(arm.Body.Instrs[0]), "total on both id polarities; register precedes write; unusable path answers with the temporary code only")
+			c.ok("R03.6", construct, c.ipos(arm.Body.Instrs[0]), "total on both id polarities; unusable path answers with the temporary code only")
 		}
 	} else {
 		c.und("R03.6", "request-accept arm", "-", "the select arm receiving from the request queue could not be recovered")
 	}
 
 	// ---- R03.7
-	if r.FnRedial != nil {
+	{
+		spawns := c.redialSpawns()
 		n := 0
-		for _, s := range callsTo(loop, r.FnRedial) {
-			n++
-			construct := fmt.Sprintf("%s: loss arm calling %s", fname(loop), fname(r.FnRedial))
-			call, ok := s.(*ssa.Call)
+		allInstrsRaw(loop, func(in ssa.Instruction) {
+			call, ok := in.(*ssa.Call)
 			if !ok {
-				c.bad("R03.7", construct, c.ipos(s), "the redial function's verdict is ignored")
-				continue
+				return
 			}
+			g := p.syncCallee(call)
+			if g == nil {
+				return
+			}
+			reaches := false
+			for _, sp := range spawns {
+				if p.inCone(g, sp) {
+					reaches = true
+				}
+			}
+			if !reaches {
+				return
+			}
+			n++
+			construct := fmt.Sprintf("%s: loss arm calling %s", fname(loop), fname(g))
 			var iff *ssa.If
 			negated := false
-			for _, ref := range *call.Referrers() {
-				switch x := ref.(type) {
-				case *ssa.If:
-					iff = x
-				case *ssa.UnOp:
-					if x.Op == token.NOT {
-						for _, r2 := range *x.Referrers() {
-							if i, ok := r2.(*ssa.If); ok {
-								iff, negated = i, true
+			if refs := call.Referrers(); refs != nil {
+				for _, ref := range *refs {
+					switch x := ref.(type) {
+					case *ssa.If:
+						iff = x
+					case *ssa.UnOp:
+						if x.Op == token.NOT {
+							for _, r2 := range *x.Referrers() {
+								if i, ok := r2.(*ssa.If); ok {
+									iff, negated = i, true
+								}
 							}
 						}
 					}
@@ -334,7 +392,7 @@ func runC03(c *Ctx) {
 			}
 			if iff == nil {
 				c.bad("R03.7", construct, c.ipos(call), "the result of the redial function is not tested: a connection that cannot reconnect keeps looping on a dead socket")
-				continue
+				return
 			}
 			falseBranch := iff.Block().Succs[1]
 			if negated {
@@ -342,7 +400,7 @@ func runC03(c *Ctx) {
 			}
 			loopsBack := reachFromBlock(falseBranch, func(in ssa.Instruction) bool { return in == ssa.Instruction(w.LoopSelect) }, isReturn)
 			c.check(loopsBack == nil, "R03.7", construct, c.ipos(iff), "returns when reconnecting is impossible", "when reconnecting is impossible the loop carries on instead of exiting (calls are never failed by the exit cleanup)")
-		}
+		})
 		if n == 0 {
 			c.bad("R03.7", fname(loop)+": loss arms", p.pos(loop.Pos()), "no loss arm calls the redial function")
 		}
@@ -352,6 +410,61 @@ func runC03(c *Ctx) {
 	c.mailboxRule("R03.8")
 	c.rule("R03.9", "the read deadline is renewed only on evidence of inbound activity, so a silent stall is detected while the client keeps sending")
 	c.deadlineRenewalRule("R03.9")
+}
+
+// lossSignalRule: R03.1 (also reported under C05).
+func (c *Ctx) lossSignalRule(rule string) {
+	p, r := c.P, c.R
+	sets, clears := c.flagEvents()
+	isSet := func(in ssa.Instruction) bool { return sets[in] }
+	nsig := 0
+	var sigs []FieldUse
+	sigs = append(sigs, usesOfKind(p.uses(r.FIncoming), "close")...)
+	sigs = append(sigs, usesOfKind(p.uses(r.FReadErr), "send", "select-send")...)
+	for _, u := range sigs {
+		nsig++
+		construct := fmt.Sprintf("%s: %s on loss-signal channel %s", fname(u.Fn), u.Kind, u.Field.Name())
+		c.check(mustPrecedeIP(u.At, isSet, 0), rule, construct, c.ipos(u.At), "preceded on all paths by a non-nil store to the connection-unusable flag",
+			"connection loss is signalled on a path that has not marked the connection unusable with a certainly non-nil error: the loop takes it for an orderly close (and exits instead of reconnecting), or requests accepted until the reconnect completes are written to the dead socket and never answered")
+	}
+	if nsig == 0 {
+		c.und(rule, "loss signals", "-", "no close of the incoming channel / send on the read-error channel found")
+	}
+	for at := range clears {
+		construct := fmt.Sprintf("%s: clearing the connection-unusable flag", fname(at.Parent()))
+		c.check(mustPrecedeIP(at, c.isSwap, 0), rule, construct, c.ipos(at), "only after the new socket was stored",
+			"the flag is cleared before a new socket is installed: calls issued in the redial window are registered, written to the dead socket and hang")
+	}
+}
+
+// completionErrCode: the error code carried by the completion delivered at instruction `in`.
+func (c *Ctx) completionErrCode(in ssa.Instruction) (int64, bool) {
+	var v ssa.Value
+	switch x := in.(type) {
+	case *ssa.Send:
+		v = x.X
+	case *ssa.Select:
+		for _, st := range x.States {
+			if st.Dir == types.SendOnly {
+				v = st.Send
+			}
+		}
+	}
+	if v == nil {
+		return 0, false
+	}
+	errF := respFieldByTag(c.R.TCresp, "error")
+	var codeF *types.Var
+	st := structOf(c.R.TRPCErr)
+	for i := 0; i < st.NumFields(); i++ {
+		if strings.Contains(st.Tag(i), `json:"code`) {
+			codeF = st.Field(i)
+		}
+	}
+	if errF == nil || codeF == nil {
+		return 0, false
+	}
+	return c.constIntOf(v, errF, codeF)
 }
 
 // mailboxRule: stores to the mailbox field of a client request.
@@ -375,25 +488,42 @@ func (c *Ctx) mailboxRule(rule string) {
 	}
 }
 
-// flagSetBranch: inside the accept arm, the successor taken when the connection-unusable flag is set.
+// flagSetBranch: inside the accept arm (including functions it calls), the successor taken
+// when the connection-unusable flag is set.
 func (c *Ctx) flagSetBranch(arm selArm) *ssa.BasicBlock {
 	blocks := armBlocks(arm)
-	var res *ssa.BasicBlock
+	var cand []*ssa.BasicBlock
 	for b := range blocks {
+		cand = append(cand, b)
+	}
+	// blocks of functions called from the arm
+	seen := map[*ssa.Function]bool{}
+	for b := range blocks {
+		for _, in := range b.Instrs {
+			if g := c.P.syncCallee(in); g != nil {
+				for _, f := range c.P.cone(g) {
+					if !seen[f] {
+						seen[f] = true
+						cand = append(cand, f.Blocks...)
+					}
+				}
+			}
+		}
+	}
+	var res *ssa.BasicBlock
+	for _, b := range cand {
 		iff, ok := b.Instrs[len(b.Instrs)-1].(*ssa.If)
 		if !ok {
 			continue
 		}
-		// cond: (load flag) != nil, possibly via a local bool
-		v := iff.Cond
-		if bo, ok := v.(*ssa.BinOp); ok && (bo.Op == token.NEQ || bo.Op == token.EQL) {
+		if bo, ok := iff.Cond.(*ssa.BinOp); ok && (bo.Op == token.NEQ || bo.Op == token.EQL) {
 			var other ssa.Value
 			if isNilConst(bo.Y) {
 				other = bo.X
 			} else if isNilConst(bo.X) {
 				other = bo.Y
 			}
-			if other != nil && isLoadOf(other, c.R.FFlag) {
+			if other != nil && c.fieldVal(other, c.R.FFlag) {
 				if bo.Op == token.NEQ {
 					res = b.Succs[0]
 				} else {
@@ -428,202 +558,229 @@ func mustPrecedeSince(fn *ssa.Function, start ssa.Instruction, A ipred, b ssa.In
 }
 
 // mustFollowFrom: every path from a to a return passes B; returns offending return.
-func mustFollowFrom(a ssa.Instruction, B ipred) ssa.Instruction { return reachFrom(a, isReturn, B) }
+func mustFollowFrom(a ssa.Instruction, B ipred) ssa.Instruction { return reachFromUp(a, isReturn, B) }
 
-// cleanupBeforeRedial: on every loss path in-flight calls are failed and sinks
-// closed before the redial goroutine is spawned (inside the redial function, or
-// before each of its call sites).
+// cleanupBeforeRedial: on every loss path in-flight calls are failed and sinks closed
+// before the redial goroutine is spawned (wherever those steps live: in the redial
+// function, in helpers, or before its call sites).
 func (c *Ctx) cleanupBeforeRedial(rule string) {
-	p, r := c.P, c.R
-	w := c.ws()
-	RULE := rule
-	if c.need(RULE, "FN_redial", r.FnRedial != nil) && c.needWS(RULE, "failer", w.Failer) && c.needWS(RULE, "sinkCloser", w.SinkCloser) {
-		redial := r.FnRedial
-		// spawn sites of the redial goroutine (the closure storing to the socket)
-		var spawns []ssa.Instruction
-		allInstrs(redial, func(in ssa.Instruction) {
-			if g, ok := in.(*ssa.Go); ok {
-				spawns = append(spawns, g)
-			}
-		})
-		if len(spawns) == 0 {
-			c.und(RULE, fname(redial)+": redial goroutine", p.pos(redial.Pos()), "no goroutine spawn found in the redial function")
-		}
-		for _, cleaner := range []struct {
-			name string
-			fn   *ssa.Function
-		}{{"in-flight failer", w.Failer}, {"sink closer", w.SinkCloser}} {
-			for _, g := range spawns {
-				construct := fmt.Sprintf("%s: %s before redial", fname(redial), cleaner.name)
-				inRedial := mustPrecede(redial, func(in ssa.Instruction) bool { return isCallTo(in, cleaner.fn) }, g)
-				if inRedial {
-					c.ok(RULE, construct, c.ipos(g), "called on every path to the spawn")
-					continue
-				}
-				// otherwise every call site of the redial function must be preceded by it within its arm
-				okAll := len(p.callers[redial]) > 0
-				for _, s := range p.callers[redial] {
-					fn := s.Parent()
-					if !mustPrecedeSince(fn, c.armStartOf(s), func(in ssa.Instruction) bool { return isCallTo(in, cleaner.fn) }, s) {
-						okAll = false
-						c.bad(RULE, construct, c.ipos(s), "this loss path reconnects without the "+cleaner.name+" having run: calls in flight / open channels are never failed or closed")
-					}
-				}
-				if okAll {
-					c.ok(RULE, construct, c.ipos(g), "called before every call of the redial function")
-				}
-			}
+	r := c.R
+	spawns := c.redialSpawns()
+	if len(spawns) == 0 {
+		c.und(rule, "redial goroutine", "-", "no goroutine that installs a new socket is spawned anywhere")
+		return
+	}
+	for _, cleaner := range []struct {
+		name string
+		f    *types.Var
+	}{{"in-flight failer", r.FInflight}, {"sink closer", r.FChanh}} {
+		for _, g := range spawns {
+			construct := fmt.Sprintf("%s: %s before redial", fname(g.Parent()), cleaner.name)
+			f := cleaner.f
+			done := func(in ssa.Instruction) bool { return c.isRangeOver(in, f) }
+			c.check(mustPrecedeIP(g, done, 0), rule, construct, c.ipos(g), "runs on every path to the spawn",
+				"a loss path reconnects without the "+cleaner.name+" having run: calls in flight / open channels are never failed or closed")
 		}
 	}
-
 }
 
 func (c *Ctx) exitCleanup(rule string) {
 	p, r := c.P, c.R
 	w := c.ws()
-	RULE := rule
-	_, _, _ = p, r, w
 	loop := r.FnLoop
 	if loop == nil {
 		c.und(rule, "connection loop", "-", "not resolved")
 		return
 	}
-	{
-		type want struct {
-			name string
-			is   func(d *ssa.Defer) bool
+	isCloseExit := func(in ssa.Instruction) bool {
+		ci, ok := in.(ssa.CallInstruction)
+		if !ok {
+			return false
 		}
-		wants := []want{
-			{"close of the exit signal", func(d *ssa.Defer) bool {
-				if b, ok := d.Call.Value.(*ssa.Builtin); ok && b.Name() == "close" {
-					return isLoadOf(d.Call.Args[0], r.FExiting)
-				}
+		b, ok := ci.Common().Value.(*ssa.Builtin)
+		return ok && b.Name() == "close" && c.fieldVal(ci.Common().Args[0], r.FExiting)
+	}
+	isCancelOfLoopCtx := func(in ssa.Instruction) bool {
+		ci, ok := in.(ssa.CallInstruction)
+		if !ok || ci.Common().IsInvoke() || ci.Common().Value == nil || !isNamed(ci.Common().Value.Type(), "context", "CancelFunc") {
+			return false
+		}
+		return c.someOrigin(ci.Common().Value, func(a apath) bool {
+			ex, ok := a.Root.(*ssa.Extract)
+			if !ok || ex.Index != 1 {
 				return false
-			}},
-			{"in-flight failer", func(d *ssa.Defer) bool { return w.Failer != nil && deferCalls(d, p) == w.Failer }},
-			{"sink closer", func(d *ssa.Defer) bool { return w.SinkCloser != nil && deferCalls(d, p) == w.SinkCloser }},
-			{"context cancel", func(d *ssa.Defer) bool {
-				return !d.Call.IsInvoke() && d.Call.Value != nil && isNamed(d.Call.Value.Type(), "context", "CancelFunc")
-			}},
+			}
+			call, ok := ex.Tuple.(*ssa.Call)
+			return ok && calleeName(call) == "context.WithCancel" && call.Parent() == loop
+		})
+	}
+	type want struct {
+		name string
+		ev   ipred
+	}
+	wants := []want{
+		{"close of the exit signal", isCloseExit},
+		{"in-flight failer", func(in ssa.Instruction) bool { return c.isRangeOver(in, r.FInflight) }},
+		{"sink closer", func(in ssa.Instruction) bool { return c.isRangeOver(in, r.FChanh) }},
+		{"context cancel", isCancelOfLoopCtx},
+	}
+	// a defer performs an event if it is the event, or its target (with everything it calls) contains it
+	performs := func(d *ssa.Defer, ev ipred) bool {
+		if ev(d) {
+			return true
 		}
-		var rets []ssa.Instruction
-		allInstrs(loop, func(in ssa.Instruction) {
-			if isReturn(in) {
-				rets = append(rets, in)
+		tgt := p.unbound(staticCallee(d))
+		if tgt == nil || !p.allFns[tgt] {
+			return false
+		}
+		hit := false
+		p.coneInstrs(tgt, func(x ssa.Instruction) {
+			if ev(x) {
+				hit = true
 			}
 		})
-		for _, wt := range wants {
-			construct := fmt.Sprintf("%s: deferred %s", fname(loop), wt.name)
-			var d *ssa.Defer
-			for _, x := range w.Defers {
-				if wt.is(x) {
-					d = x
-				}
-			}
-			if d == nil {
-				c.bad(RULE, construct, p.pos(loop.Pos()), "not deferred in the connection loop: an exit leaves calls/handlers/waiters hanging")
-				continue
-			}
-			okAll := true
-			for _, rt := range rets {
-				if !mustPrecede(loop, func(in ssa.Instruction) bool { return in == ssa.Instruction(d) }, rt) {
-					okAll = false
-					c.bad(RULE, construct, c.ipos(rt), "a return of the loop is reachable without this cleanup having been registered")
-				}
-			}
-			if okAll {
-				c.ok(RULE, construct, c.ipos(d), fmt.Sprintf("registered before all %d returns", len(rets)))
+		return hit
+	}
+	var rets []ssa.Instruction
+	allInstrsRaw(loop, func(in ssa.Instruction) {
+		if isReturn(in) && len(in.Block().Preds) > 0 {
+			rets = append(rets, in)
+		}
+	})
+	for _, wt := range wants {
+		construct := fmt.Sprintf("%s: deferred %s", fname(loop), wt.name)
+		var ds []*ssa.Defer
+		for _, x := range w.Defers {
+			if performs(x, wt.ev) {
+				ds = append(ds, x)
 			}
 		}
+		if len(ds) == 0 {
+			c.bad(rule, construct, p.pos(loop.Pos()), "not deferred in the connection loop: an exit leaves calls/handlers/waiters hanging")
+			continue
+		}
+		isD := func(in ssa.Instruction) bool {
+			for _, d := range ds {
+				if in == ssa.Instruction(d) {
+					return true
+				}
+			}
+			return false
+		}
+		okAll := true
+		for _, rt := range rets {
+			if !mustPrecede(loop, isD, rt) {
+				okAll = false
+				c.bad(rule, construct, c.ipos(rt), "a return of the loop is reachable without this cleanup having been registered")
+			}
+		}
+		if okAll {
+			c.ok(rule, construct, c.ipos(ds[0]), fmt.Sprintf("registered before all %d returns", len(rets)))
+		}
 	}
-
 }
 
 func (c *Ctx) failerRule(rule string) {
 	p, r := c.P, c.R
 	w := c.ws()
-	RULE := rule
-	_, _, _ = p, r, w
 	temp, haveTemp := c.tempCode()
-	if c.needWS(RULE, "failer", w.Failer) {
-		f := w.Failer
-		construct := fmt.Sprintf("%s: fail every in-flight call", fname(f))
-		li := p.lockInfo()
-		var rng ssa.Instruction
-		for _, u := range usesOfKind(usesIn(p.uses(r.FInflight), f), "range") {
-			rng = u.At
+	if !c.needWS(rule, "failer", w.Failer) {
+		return
+	}
+	f := w.Failer
+	construct := fmt.Sprintf("%s: fail every in-flight call", fname(f))
+	li := p.lockInfo()
+	var rng ssa.Instruction
+	for _, u := range usesOfKind(usesIn(p.uses(r.FInflight), f), "range") {
+		rng = u.At
+	}
+	// the completion sent to each ranged entry: a send whose channel is the mailbox of a value obtained from that range
+	var send ssa.Instruction
+	p.coneInstrs(f, func(in ssa.Instruction) {
+		if !c.isCompletion(in) {
+			return
 		}
-		var send *ssa.Send
-		allInstrs(f, func(in ssa.Instruction) {
-			if s, ok := in.(*ssa.Send); ok {
-				if _, ok := s.Chan.Type().Underlying().(*types.Chan); ok && s.Chan.Type().Underlying().(*types.Chan).Elem() == types.Type(r.TCresp) {
-					send = s
-				}
+		var ch ssa.Value
+		if s, ok := in.(*ssa.Send); ok {
+			ch = s.Chan
+		}
+		if ch == nil {
+			return
+		}
+		if c.someOrigin(ch, func(a apath) bool {
+			ex, ok := a.Root.(*ssa.Extract)
+			if !ok {
+				return false
 			}
-		})
-		okAll := true
-		if rng == nil || send == nil {
-			okAll = false
-			c.bad(RULE, construct, p.pos(f.Pos()), "the failer does not range over the in-flight table and send to each entry's mailbox")
-		} else {
-			// unconditional: the only conditions on the send are the range's own ok
-			for _, cf := range expandConds(impliedConds(send.Block())) {
-				if ex, ok := cf.Cond.(*ssa.Extract); ok {
-					if _, ok := ex.Tuple.(*ssa.Next); ok {
-						continue
-					}
-				}
-				if u, ok := cf.Cond.(*ssa.UnOp); ok && u.Op == token.NOT {
-					continue
-				}
-				okAll = false
-				c.bad(RULE, construct, c.ipos(send), "some registered calls are skipped (the answer is sent only under an extra condition): those callers hang")
-			}
-			if !inLoop(send.Block()) {
-				okAll = false
-				c.bad(RULE, construct, c.ipos(send), "the answer is not sent inside the loop over the table")
-			}
-			if code, ok := c.respLiteralErrCode(send.X); !ok || !haveTemp || code != temp {
-				okAll = false
-				c.bad(RULE, construct, c.ipos(send), "the failure answer does not carry the temporary-connection error code (retry-tagged calls would not retry; untagged ones would not see the connection error)")
-			}
-			// reset in the same critical section
-			var reset *ssa.Store
-			for _, u := range usesOfKind(usesIn(p.uses(r.FInflight), f), "store") {
-				reset = u.At.(*ssa.Store)
-			}
-			if reset == nil {
-				okAll = false
-				c.bad(RULE, construct, c.ipos(rng), "the table is not emptied after its entries were answered: the next loss or exit answers the same call again and blocks for ever on its one-slot mailbox (with the table lock held)")
-			} else {
-				held := intersect(li.mustAt(rng), li.mustAt(reset))
-				unlock := func(in ssa.Instruction) bool {
-					ci, ok := in.(*ssa.Call)
-					if !ok {
-						return false
-					}
-					id, op := p.lockOp(ci)
-					return op == -1 && held[id]
-				}
-				if len(held) == 0 || reachFrom(rng, func(in ssa.Instruction) bool { return in == ssa.Instruction(reset) }, unlock) == nil {
-					okAll = false
-					c.bad(RULE, construct, c.ipos(reset), "answering the entries and emptying the table are not one critical section")
-				}
-				if _, ok := reset.Val.(*ssa.MakeMap); !ok {
-					okAll = false
-					c.bad(RULE, construct, c.ipos(reset), "the table is not replaced by an empty map")
-				}
-				if ret := mustFollowFrom(rng, func(in ssa.Instruction) bool { return in == ssa.Instruction(reset) }); ret != nil {
-					okAll = false
-					c.bad(RULE, construct, c.ipos(ret), "a path returns without emptying the table")
-				}
+			_, isNext := ex.Tuple.(*ssa.Next)
+			return isNext && a.last() == r.FReady
+		}) {
+			send = in
+		}
+	})
+	okAll := true
+	if rng == nil || send == nil {
+		c.bad(rule, construct, p.pos(f.Pos()), "the failer does not range over the in-flight table and send to each entry's mailbox")
+		return
+	}
+	// unconditional: from the loop body start every path to the next iteration passes the send.
+	// (conditions on the send block other than the range's own ok mean some entries are skipped)
+	for _, cf := range expandConds(impliedCondsIP(send.Block(), 0)) {
+		if ex, ok := cf.Cond.(*ssa.Extract); ok {
+			if _, ok := ex.Tuple.(*ssa.Next); ok {
+				continue
 			}
 		}
-		if okAll {
-			c.ok(RULE, construct, c.ipos(send), "unconditional send in the range body, temporary code, table replaced in the same critical section")
+		if u, ok := cf.Cond.(*ssa.UnOp); ok && u.Op == token.NOT {
+			continue
+		}
+		okAll = false
+		c.bad(rule, construct, c.ipos(send), "some registered calls are skipped (the answer is sent only under an extra condition): those callers hang")
+	}
+	if send.Parent() == f && !inLoop(send.Block()) {
+		okAll = false
+		c.bad(rule, construct, c.ipos(send), "the answer is not sent inside the loop over the table")
+	}
+	if code, ok := c.completionErrCode(send); !ok || !haveTemp || code != temp {
+		okAll = false
+		c.bad(rule, construct, c.ipos(send), "the failure answer does not carry the temporary-connection error code (retry-tagged calls would not retry; untagged ones would not see the connection error)")
+	}
+	// reset in the same critical section
+	var reset *ssa.Store
+	for _, u := range usesOfKind(p.uses(r.FInflight), "store") {
+		if !c.isConstruction(u) && p.inCone(f, u.At) {
+			reset = u.At.(*ssa.Store)
 		}
 	}
-
+	if reset == nil {
+		okAll = false
+		c.bad(rule, construct, c.ipos(rng), "the table is not emptied after its entries were answered: the next loss or exit answers the same call again and blocks for ever on its one-slot mailbox (with the table lock held)")
+	} else {
+		held := intersect(li.mustAt(rng), li.mustAt(reset))
+		unlock := func(in ssa.Instruction) bool {
+			ci, ok := in.(*ssa.Call)
+			if !ok {
+				return false
+			}
+			id, op := p.lockOp(ci)
+			return op == -1 && held[id]
+		}
+		if len(held) == 0 || reachFrom(rng, func(in ssa.Instruction) bool { return in == ssa.Instruction(reset) }, unlock) == nil {
+			okAll = false
+			c.bad(rule, construct, c.ipos(reset), "answering the entries and emptying the table are not one critical section")
+		}
+		if !c.allOrigins(reset.Val, func(a apath) bool { _, ok := a.Root.(*ssa.MakeMap); return ok && len(a.Fields) == 0 }) {
+			okAll = false
+			c.bad(rule, construct, c.ipos(reset), "the table is not replaced by an empty map")
+		}
+		if ret := reachFrom(rng, isReturn, func(in ssa.Instruction) bool { return in == ssa.Instruction(reset) }); ret != nil && ret.Parent() == f {
+			okAll = false
+			c.bad(rule, construct, c.ipos(ret), "a path returns without emptying the table")
+		}
+	}
+	if okAll {
+		c.ok(rule, construct, c.ipos(send), "unconditional send in the range body, temporary code, table replaced in the same critical section")
+	}
 }
 
 func (c *Ctx) enqueueRule(rule string) {
